@@ -1,0 +1,453 @@
+//go:build verif
+
+// Contracts for the Bash converter, checked by /verif/govc (build tag verif
+// only: with the tag off this file does not exist for the compiler).
+//
+// Part 1: spec functions (ordinary pure Go), written from the property
+// statements and the Bash manual, not from the code under contract.
+// Part 2: contract blocks (comments only), keyed by function and loop ordinal.
+
+package bash
+
+import (
+	"strconv"
+	"strings"
+
+	"github.com/monstermichl/typeshell/parser"
+)
+
+// specHelperName: the k-th compiler temporary.
+func specHelperName(k int) string {
+	return "_h" + strconv.Itoa(k)
+}
+
+// specName: spelling of a variable in the script.  Bash has one flat variable
+// namespace, so locals of the k-th emitted function are mangled f<k>_<name>.
+func specName(inFunc bool, k int, name string, global bool) string {
+	if inFunc && !global {
+		return "f" + strconv.Itoa(k) + "_" + name
+	}
+	return name
+}
+
+func specRef(name string) string {
+	return "${" + name + "}"
+}
+
+// specAssign: NAME="VALUE" (Bash manual 3.4: no blanks around '='); a value
+// that already carries its closing / opening double quote is not quoted twice.
+func specAssign(name string, value string) string {
+	if value == "" {
+		return name + "="
+	}
+	v := value
+	if !strings.HasSuffix(v, "\"") {
+		v = v + "\""
+	}
+	if !strings.HasPrefix(v, "\"") {
+		v = "\"" + v
+	}
+	return name + "=" + v
+}
+
+// specIfValue: materialise the exit status of a test as 1/0.
+func specIfValue(test string) string {
+	return "$(if " + test + "; then echo 1; else echo 0; fi)"
+}
+
+// specIfValueNegated: 0 where the test holds, 1 where it does not.
+func specIfValueNegated(test string) string {
+	return "$(if " + test + "; then echo 0; else echo 1; fi)"
+}
+
+// specTestOp: the [ ] operator for a TypeShell comparison (Bash manual 6.4);
+// "" = the comparison does not exist for that type.
+func specTestOp(t parser.ValueType, op string) string {
+	if t.IsSlice() {
+		return ""
+	}
+	switch t.DataType() {
+	case parser.DATA_TYPE_BOOLEAN:
+		switch op {
+		case "==":
+			return "-eq"
+		case "!=":
+			return "-ne"
+		}
+	case parser.DATA_TYPE_INTEGER:
+		switch op {
+		case "==":
+			return "-eq"
+		case "!=":
+			return "-ne"
+		case "<":
+			return "-lt"
+		case "<=":
+			return "-le"
+		case ">":
+			return "-gt"
+		case ">=":
+			return "-ge"
+		}
+	case parser.DATA_TYPE_STRING:
+		switch op {
+		case "==":
+			return "=="
+		case "!=":
+			return "!="
+		}
+	}
+	return ""
+}
+
+// specArith: is "l op r" an arithmetic operation of the language on that type?
+func specArith(t parser.ValueType, op string) bool {
+	if t.IsSlice() || t.DataType() != parser.DATA_TYPE_INTEGER {
+		return false
+	}
+	return op == "*" || op == "/" || op == "%" || op == "+" || op == "-"
+}
+
+func specConcat(t parser.ValueType, op string) bool {
+	return !t.IsSlice() && t.DataType() == parser.DATA_TYPE_STRING && op == "+"
+}
+
+func specLogicalOp(op string) string {
+	switch op {
+	case "&&":
+		return "&&"
+	case "||":
+		return "||"
+	}
+	return ""
+}
+
+// specDQEscape: a string as it must appear between double quotes so that Bash
+// reproduces it byte for byte (Bash manual 3.1.2.3: inside double quotes only
+// $ ` \ " keep a special meaning and are escaped with a backslash).
+func specDQEscape(s string) string {
+	s = strings.ReplaceAll(s, "\\", "\\\\")
+	s = strings.ReplaceAll(s, "\"", "\\\"")
+	s = strings.ReplaceAll(s, "$", "\\$")
+	s = strings.ReplaceAll(s, "`", "\\`")
+	return s
+}
+
+// specSliceVals: the words of a slice literal, element k as one quoted word.
+func specSliceVals(values []string, n int) string {
+	if n <= 0 {
+		return ""
+	}
+	return specSliceVals(values, n-1) + " \\\"" + values[n-1] + "\\\""
+}
+
+func specSAH() []string {
+	return []string{
+		"# global slice assignment helper",
+		"_sah() {",
+		"local _i=${2}",
+		"local _l=$(eval \"echo \\${#${1}[@]}\")",
+		"for ((_c=${_l};_c<${_i};_c++)); do",
+		"eval \"${1}[${_c}]=\\\"${4}\\\"\"",
+		"done",
+		"eval \"${1}[${_i}]=\\\"${3}\\\"\"",
+		"}",
+	}
+}
+
+func specSCH() []string {
+	return []string{
+		"# global slice copy helper",
+		"_sch() {",
+		"local _i=0",
+		"local _l=$(eval \"echo \\${#${2}[@]}\")",
+		"local _n=$(eval \"echo \\${${1}}\")",
+		"while [ ${_i} -lt ${_l} ]; do",
+		"local _v=$(eval \"echo \\${${2}[${_i}]}\")",
+		"eval \"${_n}[${_i}]=\\\"${_v}\\\"\"",
+		"_i=$((${_i}+1))",
+		"done",
+		"}",
+	}
+}
+
+func specSSH() []string {
+	return []string{
+		"# global substring helper",
+		"_ssh() {",
+		"_ls=$((${2}))",
+		"_ll=$(((${3}-${2})+1))",
+		"_ret=\"${1:${_ls}:${_ll}}\"",
+		"}",
+	}
+}
+
+// specHelpers: the helper routines a script contains: each exactly when it is used.
+func specHelpers(sah bool, sch bool, ssh bool) []string {
+	out := []string{}
+	if sah {
+		out = append(out, specSAH()...)
+	}
+	if sch {
+		out = append(out, specSCH()...)
+	}
+	if ssh {
+		out = append(out, specSSH()...)
+	}
+	return out
+}
+
+// specReserved: names the Bash back end owns (property C10's list for this target).
+func specIsHelperName(name string) bool {
+	return strings.HasPrefix(name, "_h") || strings.HasPrefix(name, "_rv") || strings.HasPrefix(name, "_fv") || strings.HasPrefix(name, "_dv")
+}
+
+// ----------------------------------------------------------------------------
+// Contracts.
+//
+//@ func (*converter).nextHelperVar
+//@   ensures[C01,C10] fresh-name: result == specHelperName(old(c.varCounter))
+//@   ensures[C01] counter-advances: c.varCounter == old(c.varCounter) + 1
+//@   ensures[C01,C14] frame: sameExcept(c, old(c), "varCounter")
+//
+//@ func (*converter).varName
+//@   ensures[C02,C10] mangling: result == specName(len(c.funcs) > 0, c.funcCounter, name, global)
+//
+//@ func (*converter).varAssignmentString
+//@   ensures[C01,C02] assignment-text: result == specAssign(specName(len(c.funcs) > 0, c.funcCounter, name, global), value)
+//
+//@ func (*converter).varEvaluationString
+//@   ensures[C01,C02] reference-text: result == specRef(specName(len(c.funcs) > 0, c.funcCounter, name, global))
+//
+//@ func (*converter).addLine
+//@   ensures[C01,C16] appends-one: appended(c.code, old(c.code), line)
+//@   ensures[C01,C14] frame: sameExcept(c, old(c), "code")
+//
+//@ func (*converter).addStartLine
+//@   ensures[C16] appends-one: appended(c.startCode, old(c.startCode), line)
+//@   ensures[C14,C16] frame: sameExcept(c, old(c), "startCode")
+//
+//@ func (*converter).StringToString
+//@   ensures[C08] escapes-dq-specials: result == specDQEscape(value)
+//
+//@ func (*converter).ProgramStart
+//@   ensures[C16] shebang: appended(c.startCode, old(c.startCode), "#!" + c.interpreter) && result == nil
+//@   ensures[C16] frame: sameExcept(c, old(c), "startCode")
+//
+//@ func (*converter).ProgramEnd
+//@   ensures[C03,C16] helpers-iff-used: catEq(c.startCode, old(c.startCode), specHelpers(old(c.sliceAssignmentHelperRequired), old(c.sliceCopyHelperRequired), old(c.stringSubscriptHelperRequired)))
+//@   ensures[C16] code-untouched: c.code == old(c.code) && result == nil
+//
+//@ func (*converter).VarDefinition
+//@   ensures[C01,C02] line: appended(c.code, old(c.code), specAssign(specName(len(c.funcs) > 0, c.funcCounter, name, global), value)) && result == nil
+//@   ensures[C01] frame: sameExcept(c, old(c), "code")
+//
+//@ func (*converter).VarAssignment
+//@   ensures[C01,C02] line: appended(c.code, old(c.code), specAssign(specName(len(c.funcs) > 0, c.funcCounter, name, global), value)) && result == nil
+//@   ensures[C01] frame: sameExcept(c, old(c), "code")
+//
+//@ func (*converter).SliceAssignment
+//@   ensures[C03] line: appended(c.code, old(c.code), "_sah " + specRef(specName(len(c.funcs) > 0, c.funcCounter, name, global)) + " " + index + " \"" + value + "\" \"" + defaultValue + "\"") && result == nil
+//@   ensures[C03,C16] helper-flagged: c.sliceAssignmentHelperRequired
+//@   ensures[C03] frame: sameExcept(c, old(c), "code", "sliceAssignmentHelperRequired")
+//
+//@ func (*converter).FuncStart
+//@   loop 1 invariant[C02] lines-so-far: len(c.code) == len(old(c.code)) + 2 + rangeindex && samePrefix(old(c.code), c.code) && c.code[len(old(c.code))] == name + "() {"
+//@   loop 1 invariant[C02] params-so-far: forall(k, 0, rangeindex + 1, c.code[len(old(c.code)) + 1 + k] == "local " + specAssign(specName(true, c.funcCounter, params[k], false), "$" + itoa(k + 1)))
+//@   loop 1 invariant[C02] frame: sameExcept(c, old(c), "code", "funcs", "funcCounter") && c.funcCounter == old(c.funcCounter) + 1 && appended(c.funcs, old(c.funcs), funcInfoOf(name))
+//@   ensures[C02] header: len(c.code) == len(old(c.code)) + 1 + len(params) && samePrefix(old(c.code), c.code) && c.code[len(old(c.code))] == name + "() {"
+//@   ensures[C02] parameter-binding: forall(k, 0, len(params), c.code[len(old(c.code)) + 1 + k] == "local " + specAssign(specName(true, c.funcCounter, params[k], false), "$" + itoa(k + 1)))
+//@   ensures[C02] new-mangling-prefix: c.funcCounter == old(c.funcCounter) + 1 && appended(c.funcs, old(c.funcs), funcInfoOf(name)) && result == nil
+//@   ensures[C02] frame: sameExcept(c, old(c), "code", "funcs", "funcCounter")
+//
+//@ func (*converter).FuncEnd
+//@   requires[C13,C16] in-function: len(c.funcs) > 0
+//@   ensures[C02,C16] closes: appended(c.code, old(c.code), "}") && len(c.funcs) == len(old(c.funcs)) - 1 && samePrefix(c.funcs, old(c.funcs)) && result == nil
+//@   ensures[C02] frame: sameExcept(c, old(c), "code", "funcs")
+//
+//@ func (*converter).Return
+//@   loop 1 invariant[C02] registers-so-far: len(c.code) == len(old(c.code)) + 1 + rangeindex && samePrefix(old(c.code), c.code) && forall(k, 0, rangeindex + 1, c.code[len(old(c.code)) + k] == specAssign("_rv" + itoa(k), values[k].value))
+//@   loop 1 invariant[C02] frame: sameExcept(c, old(c), "code")
+//@   ensures[C02] registers-in-order: len(c.code) == len(old(c.code)) + len(values) + 1 && samePrefix(old(c.code), c.code) && forall(k, 0, len(values), c.code[len(old(c.code)) + k] == specAssign("_rv" + itoa(k), values[k].value))
+//@   ensures[C02] then-return: c.code[len(old(c.code)) + len(values)] == "return" && result == nil
+//@   ensures[C02] frame: sameExcept(c, old(c), "code")
+//
+//@ func (*converter).ifStart
+//@   ensures[C01,C16] line: appended(c.code, old(c.code), startWord + " [ " + condition + " -eq 1 ]; then") && result == nil
+//@   ensures[C01] frame: sameExcept(c, old(c), "code")
+//
+//@ func (*converter).IfStart
+//@   ensures[C01,C16] line: appended(c.code, old(c.code), "if [ " + condition + " -eq 1 ]; then") && result == nil
+//@   ensures[C01] frame: sameExcept(c, old(c), "code")
+//
+//@ func (*converter).ElseIfStart
+//@   ensures[C01,C16] line: appended(c.code, old(c.code), "elif [ " + condition + " -eq 1 ]; then") && result == nil
+//@   ensures[C01] frame: sameExcept(c, old(c), "code")
+//
+//@ func (*converter).ElseStart
+//@   ensures[C01,C16] line: appended(c.code, old(c.code), "else") && result == nil && sameExcept(c, old(c), "code")
+//
+//@ func (*converter).IfEnd
+//@   ensures[C01,C16] line: appended(c.code, old(c.code), "fi") && result == nil && sameExcept(c, old(c), "code")
+//
+//@ func (*converter).ElseIfEnd
+//@   ensures[C01,C16] nothing: c.code == old(c.code) && result == nil
+//
+//@ func (*converter).ElseEnd
+//@   ensures[C01,C16] nothing: c.code == old(c.code) && result == nil
+//
+//@ func (*converter).mustCurrentForVar
+//@   requires[C13,C16] in-loop: len(c.fors) > 0
+//@   ensures[C01,C10] innermost-flag: result == "_fv" + itoa(c.fors[len(c.fors) - 1])
+//
+//@ func (*converter).ForStart
+//@   requires[C01] open-flags-allocated: forall(k, 0, len(c.fors), c.fors[k] < c.forCounter)
+//@   ensures[C01] fresh-flag: appended(c.fors, old(c.fors), old(c.forCounter)) && c.forCounter == old(c.forCounter) + 1
+//@   ensures[C01] flag-not-shared-with-open-loop: forall(k, 0, len(old(c.fors)), old(c.fors)[k] != c.fors[len(c.fors) - 1])
+//@   ensures[C01] invariant-kept: forall(k, 0, len(c.fors), c.fors[k] < c.forCounter)
+//@   ensures[C01,C16] lines: appended(c.code, old(c.code), "_fv" + itoa(old(c.forCounter)) + "=", "while true; do") && result == nil
+//@   ensures[C01] frame: sameExcept(c, old(c), "code", "fors", "forCounter")
+//
+//@ func (*converter).ForIncrementStart
+//@   requires[C13,C16] in-loop: len(c.fors) > 0
+//@   ensures[C01] guarded-by-innermost-flag: appended(c.code, old(c.code), "if [ ! -z ${_fv" + itoa(c.fors[len(c.fors) - 1]) + "} ]; then") && result == nil
+//@   ensures[C01] frame: sameExcept(c, old(c), "code")
+//
+//@ func (*converter).ForIncrementEnd
+//@   requires[C13,C16] in-loop: len(c.fors) > 0
+//@   ensures[C01] sets-innermost-flag: appended(c.code, old(c.code), "fi", "_fv" + itoa(c.fors[len(c.fors) - 1]) + "=1") && result == nil
+//@   ensures[C01] frame: sameExcept(c, old(c), "code")
+//
+//@ func (*converter).ForCondition
+//@   ensures[C01] break-unless-true: appended(c.code, old(c.code), "if [ " + condition + " -ne 1 ]; then break; fi") && result == nil
+//@   ensures[C01] frame: sameExcept(c, old(c), "code")
+//
+//@ func (*converter).ForEnd
+//@   requires[C13,C16] in-loop: len(c.fors) > 0
+//@   ensures[C01,C16] closes-innermost: appended(c.code, old(c.code), "done") && len(c.fors) == len(old(c.fors)) - 1 && samePrefix(c.fors, old(c.fors)) && result == nil
+//@   ensures[C01] counter-never-reused: c.forCounter == old(c.forCounter)
+//@   ensures[C01] frame: sameExcept(c, old(c), "code", "fors")
+//
+//@ func (*converter).Break
+//@   ensures[C01] line: appended(c.code, old(c.code), "break") && result == nil && sameExcept(c, old(c), "code")
+//
+//@ func (*converter).Continue
+//@   ensures[C01] line: appended(c.code, old(c.code), "continue") && result == nil && sameExcept(c, old(c), "code")
+//
+//@ func (*converter).Nop
+//@   ensures[C16] non-empty-body: appended(c.code, old(c.code), ": # No operation") && result == nil && sameExcept(c, old(c), "code")
+//
+//@ func (*converter).Print
+//@   ensures[C01] one-echo-blank-joined: appended(c.code, old(c.code), "echo \"" + strings.Join(values, " ") + "\"") && result == nil
+//@   ensures[C01] frame: sameExcept(c, old(c), "code")
+//
+//@ func (*converter).Panic
+//@   ensures[C01] echo-then-exit-1: appended(c.code, old(c.code), "echo \"" + value + "\"", "exit 1") && result == nil
+//@   ensures[C01] frame: sameExcept(c, old(c), "code")
+//
+//@ func (*converter).UnaryOperation
+//@   ensures[C01,C06] error-iff-unknown: (err != nil) == (operator != "!")
+//@   ensures[C01] negation-line: err == nil ==> appended(c.code, old(c.code), specAssign(specName(len(c.funcs) > 0, c.funcCounter, specHelperName(old(c.varCounter)), false), specIfValueNegated("[ \"" + expr + "\" -eq \"1\" ]")))
+//@   ensures[C01,C10] result-is-the-fresh-helper: err == nil ==> result == specRef(specName(len(c.funcs) > 0, c.funcCounter, specHelperName(old(c.varCounter)), false))
+//@   ensures[C01] counter: c.varCounter == old(c.varCounter) + 1 && sameExcept(c, old(c), "code", "varCounter")
+//
+//@ func (*converter).BinaryOperation
+//@   ensures[C01,C06] error-iff-not-allowed: (err != nil) == !(specArith(valueType, operator) || specConcat(valueType, operator))
+//@   ensures[C01] nothing-emitted-on-error: err != nil ==> c.code == old(c.code) && result == ""
+//@   ensures[C01] arithmetic-line: err == nil && specArith(valueType, operator) ==> appended(c.code, old(c.code), specAssign(specName(len(c.funcs) > 0, c.funcCounter, specHelperName(old(c.varCounter)), false), "$((" + left + operator + right + "))"))
+//@   ensures[C01] concat-line: err == nil && specConcat(valueType, operator) ==> appended(c.code, old(c.code), specAssign(specName(len(c.funcs) > 0, c.funcCounter, specHelperName(old(c.varCounter)), false), "\"" + left + right + "\""))
+//@   ensures[C01,C10] result-is-the-fresh-helper: err == nil ==> result == specRef(specName(len(c.funcs) > 0, c.funcCounter, specHelperName(old(c.varCounter)), false))
+//@   ensures[C01] counter: c.varCounter == old(c.varCounter) + 1 && sameExcept(c, old(c), "code", "varCounter")
+//
+//@ func (*converter).Comparison
+//@   ensures[C01,C06] error-iff-not-allowed: (err != nil) == (specTestOp(valueType, operator) == "")
+//@   ensures[C01] nothing-emitted-on-error: err != nil ==> c.code == old(c.code) && result == "" && c.varCounter == old(c.varCounter)
+//@   ensures[C01] test-line: err == nil ==> appended(c.code, old(c.code), specAssign(specName(len(c.funcs) > 0, c.funcCounter, specHelperName(old(c.varCounter)), false), specIfValue("[ \"" + left + "\" " + specTestOp(valueType, operator) + " \"" + right + "\" ]")))
+//@   ensures[C01,C10] result-is-the-fresh-helper: err == nil ==> result == specRef(specName(len(c.funcs) > 0, c.funcCounter, specHelperName(old(c.varCounter)), false)) && c.varCounter == old(c.varCounter) + 1
+//@   ensures[C01] frame: sameExcept(c, old(c), "code", "varCounter")
+//
+//@ func (*converter).LogicalOperation
+//@   ensures[C01,C06] error-iff-unknown: (err != nil) == (specLogicalOp(operator) == "")
+//@   ensures[C01] nothing-emitted-on-error: err != nil ==> c.code == old(c.code) && result == "" && c.varCounter == old(c.varCounter)
+//@   ensures[C01] both-operands-tested: err == nil ==> appended(c.code, old(c.code), specAssign(specName(len(c.funcs) > 0, c.funcCounter, specHelperName(old(c.varCounter)), false), specIfValue("[ \"" + left + "\" -eq \"1\" ] " + specLogicalOp(operator) + " [ \"" + right + "\" -eq \"1\" ]")))
+//@   ensures[C01,C10] result-is-the-fresh-helper: err == nil ==> result == specRef(specName(len(c.funcs) > 0, c.funcCounter, specHelperName(old(c.varCounter)), false)) && c.varCounter == old(c.varCounter) + 1
+//@   ensures[C01] frame: sameExcept(c, old(c), "code", "varCounter")
+//
+//@ func (*converter).VarEvaluation
+//@   ensures[C01,C02] reference: result == specRef(specName(len(c.funcs) > 0, c.funcCounter, name, global)) && err == nil && sameExcept(c, old(c))
+//
+//@ func (*converter).Group
+//@   ensures[C01] parenthesised: result == "(" + value + ")" && err == nil && sameExcept(c, old(c))
+//
+//@ func (*converter).SliceInstantiation
+//@   loop 1 invariant[C03] words-so-far: vals == specSliceVals(values, rangeindex + 1)
+//@   loop 1 invariant[C03] two-lines-so-far: appended(c.code, old(c.code), "_dvc=$((${_dvc}+1))", specAssign(specName(len(c.funcs) > 0, c.funcCounter, specHelperName(old(c.varCounter)), false), "_dv${_dvc}"))
+//@   loop 1 invariant[C03] frame: sameExcept(c, old(c), "code", "varCounter") && c.varCounter == old(c.varCounter) + 1
+//@   ensures[C03] counter-bumped-before-naming: len(c.code) >= len(old(c.code)) + 2 && samePrefix(old(c.code), c.code) && c.code[len(old(c.code))] == "_dvc=$((${_dvc}+1))" && c.code[len(old(c.code)) + 1] == specAssign(specName(len(c.funcs) > 0, c.funcCounter, specHelperName(old(c.varCounter)), false), "_dv${_dvc}")
+//@   ensures[C03] empty-literal-two-lines: len(values) == 0 ==> len(c.code) == len(old(c.code)) + 2
+//@   ensures[C03] elements-in-order: len(values) > 0 ==> len(c.code) == len(old(c.code)) + 3 && c.code[len(old(c.code)) + 2] == "eval \"" + specRef(specName(len(c.funcs) > 0, c.funcCounter, specHelperName(old(c.varCounter)), false)) + "=(" + strings.TrimSpace(specSliceVals(values, len(values))) + ")\""
+//@   ensures[C03,C10] result-is-the-fresh-helper: result == specRef(specName(len(c.funcs) > 0, c.funcCounter, specHelperName(old(c.varCounter)), false)) && c.varCounter == old(c.varCounter) + 1 && err == nil
+//@   ensures[C03] frame: sameExcept(c, old(c), "code", "varCounter")
+//
+//@ func (*converter).SliceEvaluation
+//@   ensures[C03] indirect-read: appended(c.code, old(c.code), specAssign(specName(len(c.funcs) > 0, c.funcCounter, specHelperName(old(c.varCounter)), false), "$(eval \"echo \\${" + name + "[" + index + "]}\")")) && err == nil
+//@   ensures[C03,C10] result-is-the-fresh-helper: result == specRef(specName(len(c.funcs) > 0, c.funcCounter, specHelperName(old(c.varCounter)), false)) && c.varCounter == old(c.varCounter) + 1
+//@   ensures[C03] frame: sameExcept(c, old(c), "code", "varCounter")
+//
+//@ func (*converter).SliceLen
+//@   ensures[C03] indirect-length: appended(c.code, old(c.code), specAssign(specName(len(c.funcs) > 0, c.funcCounter, specHelperName(old(c.varCounter)), false), "$(eval \"echo \\${#" + name + "[@]}\")")) && err == nil
+//@   ensures[C03,C10] result-is-the-fresh-helper: result == specRef(specName(len(c.funcs) > 0, c.funcCounter, specHelperName(old(c.varCounter)), false)) && c.varCounter == old(c.varCounter) + 1
+//@   ensures[C03] frame: sameExcept(c, old(c), "code", "varCounter")
+//
+//@ func (*converter).StringSubscript
+//@   ensures[C03] helper-call-then-copy: appended(c.code, old(c.code), "_ssh \"" + value + "\" " + startIndex + " " + endIndex, specAssign(specName(len(c.funcs) > 0, c.funcCounter, specHelperName(old(c.varCounter)), false), "${_ret}")) && err == nil
+//@   ensures[C03,C16] helper-flagged: c.stringSubscriptHelperRequired
+//@   ensures[C03,C10] result-is-the-fresh-helper: result == specRef(specName(len(c.funcs) > 0, c.funcCounter, specHelperName(old(c.varCounter)), false)) && c.varCounter == old(c.varCounter) + 1
+//@   ensures[C03] frame: sameExcept(c, old(c), "code", "varCounter", "stringSubscriptHelperRequired")
+//
+//@ func (*converter).StringLen
+//@   ensures[C03] store-then-measure: appended(c.code, old(c.code), specAssign(specName(len(c.funcs) > 0, c.funcCounter, specHelperName(old(c.varCounter)), false), value), specAssign(specName(len(c.funcs) > 0, c.funcCounter, specHelperName(old(c.varCounter)), false), "${#" + specName(len(c.funcs) > 0, c.funcCounter, specHelperName(old(c.varCounter)), false) + "}")) && err == nil
+//@   ensures[C03,C10] result-is-the-fresh-helper: result == specRef(specName(len(c.funcs) > 0, c.funcCounter, specHelperName(old(c.varCounter)), false)) && c.varCounter == old(c.varCounter) + 1
+//@   ensures[C03] frame: sameExcept(c, old(c), "code", "varCounter")
+//
+//@ func (*converter).Exists
+//@   ensures[C17] test-e-quoted-path: appended(c.code, old(c.code), specAssign(specName(len(c.funcs) > 0, c.funcCounter, specHelperName(old(c.varCounter)), false), specIfValue("[ -e \"" + path + "\" ]"))) && err == nil
+//@   ensures[C17,C10] result-is-the-fresh-helper: result == specRef(specName(len(c.funcs) > 0, c.funcCounter, specHelperName(old(c.varCounter)), false)) && c.varCounter == old(c.varCounter) + 1
+//@   ensures[C17] frame: sameExcept(c, old(c), "code", "varCounter")
+//
+//@ func (*converter).ReadFile
+//@   ensures[C17] cat-quoted-path: appended(c.code, old(c.code), specAssign(specName(len(c.funcs) > 0, c.funcCounter, specHelperName(old(c.varCounter)), false), "$(cat \"" + path + "\")")) && err == nil
+//@   ensures[C17,C10] result-is-the-fresh-helper: result == specRef(specName(len(c.funcs) > 0, c.funcCounter, specHelperName(old(c.varCounter)), false)) && c.varCounter == old(c.varCounter) + 1
+//@   ensures[C17] frame: sameExcept(c, old(c), "code", "varCounter")
+//
+//@ func (*converter).WriteFile
+//@   ensures[C17] selector-then-echo: appended(c.code, old(c.code), specAssign(specName(len(c.funcs) > 0, c.funcCounter, specHelperName(old(c.varCounter)), false), "$(if [ \"" + append + "\" -eq \"1\" ]; then echo \">>\"; else echo \">\"; fi)"), "eval \"echo \\\"" + content + "\\\" " + specRef(specName(len(c.funcs) > 0, c.funcCounter, specHelperName(old(c.varCounter)), false)) + " " + path + "\"") && result == nil
+//@   ensures[C17] frame: sameExcept(c, old(c), "code", "varCounter") && c.varCounter == old(c.varCounter) + 1
+//
+//@ func (*converter).Input
+//@   ensures[C01,C10] result-is-the-fresh-helper: result == specRef(specName(len(c.funcs) > 0, c.funcCounter, specHelperName(old(c.varCounter)), false)) && c.varCounter == old(c.varCounter) + 1 && err == nil
+//@   ensures[C08] read-is-raw: len(prompt) == 0 ==> appended(c.code, old(c.code), "read -r " + specHelperName(old(c.varCounter)))
+//
+//@ func (*converter).Copy
+//@   ensures[C03] helper-call-then-length: appended(c.code, old(c.code), "_sch " + specName(len(c.funcs) > 0, c.funcCounter, destination, global) + " " + source, specAssign(specName(len(c.funcs) > 0, c.funcCounter, specHelperName(old(c.varCounter)), false), "$(eval \"echo \\${#${" + specName(len(c.funcs) > 0, c.funcCounter, destination, global) + "}[@]}\")")) && err == nil
+//@   ensures[C03,C16] helper-flagged: c.sliceCopyHelperRequired
+//@   ensures[C03,C10] result-is-the-fresh-helper: result == specRef(specName(len(c.funcs) > 0, c.funcCounter, specHelperName(old(c.varCounter)), false)) && c.varCounter == old(c.varCounter) + 1
+//
+//@ func (*converter).FuncCall
+//@   loop 1 invariant[C02] quoted-so-far: len(args) == len(old(args)) && forall(k, 0, rangeindex + 1, args[k] == "\"" + old(args)[k] + "\"") && forall(k, rangeindex + 1, len(args), args[k] == old(args)[k])
+//@   loop 1 invariant[C02] frame: sameExcept(c, old(c))
+//@   loop 2 invariant[C02] copies-so-far: len(returnValues) == rangeindex + 1 && len(c.code) == len(old(c.code)) + 2 + rangeindex && samePrefix(old(c.code), c.code) && c.varCounter == old(c.varCounter) + rangeindex + 1
+//@   loop 2 invariant[C02] call-line-kept: c.code[len(old(c.code))] == name + " " + strings.Join(args, " ") && forall(k, 0, len(args), args[k] == "\"" + old(args)[k] + "\"") && len(args) == len(old(args))
+//@   loop 2 invariant[C02] register-copies: forall(k, 0, rangeindex + 1, c.code[len(old(c.code)) + 1 + k] == specAssign(specName(len(c.funcs) > 0, c.funcCounter, specHelperName(old(c.varCounter) + k), false), "${_rv" + itoa(k) + "}") && returnValues[k] == specRef(specName(len(c.funcs) > 0, c.funcCounter, specHelperName(old(c.varCounter) + k), false)))
+//@   loop 2 invariant[C02] frame: sameExcept(c, old(c), "code", "varCounter")
+//@   loop 3 invariant[C02] padding: len(returnValues) <= len(returnTypes) && (valueUsed ==> len(returnValues) == len(returnTypes))
+//@   loop 3 invariant[C02] copies-kept: valueUsed ==> forall(k, 0, len(returnTypes), returnValues[k] == specRef(specName(len(c.funcs) > 0, c.funcCounter, specHelperName(old(c.varCounter) + k), false)))
+//@   ensures[C02] every-argument-one-quoted-word: len(args) == len(old(args)) && forall(k, 0, len(args), args[k] == "\"" + old(args)[k] + "\"")
+//@   ensures[C02] call-line-first: len(c.code) >= len(old(c.code)) + 1 && samePrefix(old(c.code), c.code) && c.code[len(old(c.code))] == name + " " + strings.Join(args, " ")
+//@   ensures[C02] as-many-results-as-declared: err == nil && len(result) == len(returnTypes)
+//@   ensures[C02] registers-copied-in-order: valueUsed ==> len(c.code) == len(old(c.code)) + 1 + len(returnTypes) && forall(k, 0, len(returnTypes), c.code[len(old(c.code)) + 1 + k] == specAssign(specName(len(c.funcs) > 0, c.funcCounter, specHelperName(old(c.varCounter) + k), false), "${_rv" + itoa(k) + "}") && result[k] == specRef(specName(len(c.funcs) > 0, c.funcCounter, specHelperName(old(c.varCounter) + k), false)))
+//@   ensures[C02] frame: sameExcept(c, old(c), "code", "varCounter")
+
+func funcInfoOf(name string) funcInfo {
+	return funcInfo{name: name}
+}
